@@ -8,10 +8,11 @@ from ..core import Acc, Violation, run_hypothesis, shard_seed, describe_exc
 PROPERTY = 'C13'
 RULE = ('(a) schedules: 2-3 worker threads each compile and evaluate a distinct, never-before-seen filter on a shared grid '
         'while a harness-owned scheduler (sys.settrace line events inside filter_function, _filter_function and '
-        '_FnWrapper.__init__/get/__del__ of hszinc/grid_filter.py) decides which thread runs each source line; a schedule '
-        'is the list of thread ids in resumption order. Enumerated: every 2-thread schedule with at most 4 (quick) / 5 '
-        '(thorough) changes of the running thread, every 3-thread schedule with at most 3 / 4; plus Hypothesis-drawn '
-        'schedules. Oracle: each thread gets exactly the rows its own filter denotes (reference evaluator), no exception, '
+        '_FnWrapper.__init__/get/__del__ of hszinc/grid_filter.py and Grid.filter / Grid.reindex of hszinc/grid.py) decides which thread runs each source line; a schedule '
+        'is the list of thread ids in resumption order. Enumerated: quick - yield points in the compile path and in Grid.reindex (~17 per '
+        'thread), every 2-thread schedule with <= 4 (5,238) and every 3-thread schedule with <= 3 changes of the running thread; '
+        'thorough - additionally every line of Grid.filter (~37 yield points per thread), every 2-thread schedule with <= 4 '
+        'changes (50,025); plus Hypothesis-drawn schedules. Oracle: each thread gets exactly the rows its own filter denotes (reference evaluator), no exception, '
         'and a sequential re-evaluation afterwards still agrees. (b) histories around the compiled-filter cache: a '
         'Hypothesis-drawn sequence over a pool of distinct filters of evaluate-new / re-evaluate-cached / re-evaluate-evicted / '
         'call a function object obtained earlier / gc.collect, against the function re-wrapped with lru_cache(maxsize=8) '
@@ -25,53 +26,56 @@ ASSUMPTIONS = ['interleavings are at source-line granularity inside hszinc\'s Py
 FEATURES = {'filter.name-race': 'two threads compiling different filters at the same time can get the same generated function '
                                 'name, so one filter evaluates the other\'s code'}
 EXHAUSTIVE_CLAIM = True
-FUNCS = ('filter_function', '_filter_function', '__init__', 'get', '__del__')
+COMPILE_PATH = ('filter_function', '_filter_function', '__init__', 'get', '__del__')
+WHERE_QUICK = {'hszinc/grid_filter.py': COMPILE_PATH, 'hszinc/grid.py': ('reindex',)}
+WHERE_FULL = {'hszinc/grid_filter.py': COMPILE_PATH, 'hszinc/grid.py': ('reindex', 'filter')}   # + every line of Grid.filter
+WHERE = WHERE_QUICK
 _COUNTER = itertools.count()
+SCHED_ROWS = 4
 
 
-def shared_grid():
+def shared_grid(nrows=12):
     import hszinc
     g = hszinc.Grid(version='3.0')
-    g.column['id'] = {}
-    g.column['n'] = {}
-    g.column['k'] = {}
-    for i in range(12):
-        row = {'id': 'id%d' % i, 'n': float(i % 6)}
+    for c in ('id', 'n', 'k', 'f', 'r'):
+        g.column[c] = {}
+    for i in range(nrows):
+        row = {'id': 'id%d' % i, 'n': float(i % 6), 'f': i % 3 == 0, 'r': hszinc.Ref('id%d' % ((i + 1) % nrows))}
         if i % 2:
             row['k'] = hszinc.MARKER
         g.append(row)
     return g
 
 
-def fresh_filters(n, salt):
-    """n filters with different results and texts never used before in this process.  Every fourth entry is a
-    pair of filters made of the same tokens but grouped differently ('(k or n == v) and n != w ...' vs
-    'k or n == v and n != w ...'): they mean different things although they print alike without parentheses."""
+def fresh_filters(n, salt, nrows=12):
+    """n filters with different results and texts never used before in this process.  Kinds: number literal,
+    ordering + marker, negation, a->b path through the id index of the shared grid, bool literal (Python-equal to the
+    number literals of other filters), and pairs made of the same tokens but grouped differently
+    ('(k or n == v) and n != w ...' vs 'k or n == v and n != w ...': different meaning, same print-out)."""
     out = []
     i = 0
+    R = range(nrows)
     while len(out) < n:
         u = next(_COUNTER)
         v = (salt + i) % 6
-        kind = (salt + i) % 4
+        kind = (salt + i) % 6
         i += 1
         if kind == 0:
-            text = 'n == %d and not zz%d_%d' % (v, salt, u)
-            want = ['id%d' % j for j in range(12) if j % 6 == v]
-            out.append((text, want))
+            out.append(('n == %d and not zz%d_%d' % (v, salt, u), ['id%d' % j for j in R if j % 6 == v]))
         elif kind == 1:
-            text = 'n > %d and k and not zz%d_%d' % (v, salt, u)
-            want = ['id%d' % j for j in range(12) if j % 6 > v and j % 2]
-            out.append((text, want))
+            out.append(('n > %d and k and not zz%d_%d' % (v, salt, u), ['id%d' % j for j in R if j % 6 > v and j % 2]))
         elif kind == 2:
-            text = 'not k and n != %d and not zz%d_%d' % (v, salt, u)
-            want = ['id%d' % j for j in range(12) if j % 6 != v and not j % 2]
-            out.append((text, want))
+            out.append(('not k and n != %d and not zz%d_%d' % (v, salt, u), ['id%d' % j for j in R if j % 6 != v and not j % 2]))
+        elif kind == 3:
+            out.append(('r->n == %d and not zz%d_%d' % (v, salt, u), ['id%d' % j for j in R if ((j + 1) % nrows) % 6 == v]))
+        elif kind == 4:
+            out.append(('f == true and n != %d and not zz%d_%d' % (v, salt, u), ['id%d' % j for j in R if j % 3 == 0 and j % 6 != v]))
         else:
             w = (v + 1) % 6 if (v + 1) % 2 else (v + 2) % 6     # an odd n value: rows with k and n == w exist
             a = '(k or n == %d) and n != %d and not zz%d_%d' % (v, w, salt, u)
-            wa = ['id%d' % j for j in range(12) if (j % 2 or j % 6 == v) and j % 6 != w]
+            wa = ['id%d' % j for j in R if (j % 2 or j % 6 == v) and j % 6 != w]
             b = 'k or n == %d and n != %d and not zz%d_%d' % (v, w, salt, u)
-            wb = ['id%d' % j for j in range(12) if j % 2 or (j % 6 == v and j % 6 != w)]
+            wb = ['id%d' % j for j in R if j % 2 or (j % 6 == v and j % 6 != w)]
             out.append((a, wa))
             out.append((b, wb))
     return out[:n]
@@ -79,15 +83,15 @@ def fresh_filters(n, salt):
 
 def run_schedule(nthreads, schedule, salt):
     """returns (Run, filters); raises Violation"""
-    g = shared_grid()
-    filters = fresh_filters(nthreads, salt)
+    g = shared_grid(SCHED_ROWS)
+    filters = fresh_filters(nthreads, salt, SCHED_ROWS)
     case = {'kind': 'schedule', 'threads': nthreads, 'schedule': list(schedule), 'salt': salt}
 
     def worker(text):
         def fn():
             return [r['id'] for r in g.filter(text)]
         return fn
-    r = sched.Run(nthreads, schedule, 'hszinc/grid_filter.py', FUNCS)
+    r = sched.Run(nthreads, schedule, WHERE)
     r.run([worker(t) for t, _ in filters])
     case['resumed'] = r.trace
     for i, (text, want) in enumerate(filters):
@@ -170,16 +174,18 @@ def history_check(case):
 
 def plan(tier, seed, excl):
     q = tier == 'quick'
-    t = [('sched2', {'shard': i, 'of': 12, 'switches': 4 if q else 5}) for i in range(12)]
-    t += [('sched3', {'shard': i, 'of': 4, 'switches': 3 if q else 4}) for i in range(4)]
-    t += [('sched-random', {'shard': i, 'n': 150 if q else 3000}) for i in range(4)]
+    t = [('sched2', {'shard': i, 'of': 16, 'switches': 4 if q else 3}) for i in range(16)]
+    t += [('sched3', {'shard': i, 'of': 4, 'switches': 3}) for i in range(4)]
+    t += [('sched-random', {'shard': i, 'n': 150 if q else 6000}) for i in range(4 if q else 12)]
     t += [('history-small', {'shard': i, 'n': 120 if q else 2500}) for i in range(4)]
     t += [('history-real', {'variant': i}) for i in range(2 if q else 6)]
     return t
 
 
 def run(part, args, env):
+    global WHERE
     acc = Acc(part)
+    WHERE = WHERE_QUICK if (env['tier'] == 'quick' or part == 'sched3') else WHERE_FULL
     if part in ('sched2', 'sched3'):
         n = 2 if part == 'sched2' else 3
         segs = measure(n, 0)
@@ -204,7 +210,7 @@ def run(part, args, env):
             n, args['switches'], segs[0] - 1, len(scheds))] = True
     elif part == 'sched-random':
         from hypothesis import strategies as st
-        strat = st.tuples(st.sampled_from([2, 3, 3]), st.lists(st.integers(0, 2), max_size=60), st.integers(0, 17))
+        strat = st.tuples(st.sampled_from([2, 3, 3]), st.lists(st.integers(0, 2), max_size=120), st.integers(0, 17))
 
         def body(t):
             n, s, salt = t
